@@ -157,6 +157,9 @@ write_prototype_for(ostream &out, InterfaceMaker::Function *func) {
 
     if (output_function_names) {
       out << "EXPORT_FUNC ";
+    } else {
+      // Must agree with the definition, which is static in this case.
+      out << "static ";
     }
     write_function_header(out, func, remap, false);
     out << ";\n";
